@@ -1,3 +1,4 @@
+import CwMt.Proofs.EngineInv
 import CwMt.Proofs.Bank
 /-
   C09 — The bank ledger conserves coins and never overdraws.
@@ -205,5 +206,36 @@ example : final [] [.mint "a" [⟨"u", 5⟩], .send "a" "b" [⟨"u", 7⟩], .sen
     = [("a", [⟨"u", 3⟩]), ("b", [⟨"u", 1⟩])] := by decide
 example : credits [] [.mint "a" [⟨"u", 5⟩], .send "a" "b" [⟨"u", 7⟩], .send "a" "b" [⟨"u", 2⟩], .burn "b" [⟨"u", 1⟩]] "b" "u" = 2 ∧
     debits [] [.mint "a" [⟨"u", 5⟩], .send "a" "b" [⟨"u", 7⟩], .send "a" "b" [⟨"u", 2⟩], .burn "b" [⟨"u", 1⟩]] "b" "u" = 1 := by decide
+
+end CwMt.C09
+
+/-! ### contract-initiated transfers: no execution of any message tree creates coins -/
+namespace CwMt.C09
+open CwMt
+
+/-- modules other than bank and wasm leave the ledger alone (in the simulator they move coins only
+through bank messages routed back through the router) -/
+def ExtBankFrame {E : Type} (cfg : Config E) : Prop :=
+  (∀ k ch blk s p r ch', cfg.extExec k ch blk s p = .ok (r, ch') → ch'.bank = ch.bank) ∧
+  (∀ ch blk p r ch', cfg.extSudo ch blk p = .ok (r, ch') → ch'.bank = ch.bank)
+
+/-- For every message (any nesting of contract calls, funds attached to execute / instantiate, bank
+sub-messages, whatever the contracts do): the ledger stays in normal form and the total supply of
+every denomination never grows — only `BankSudo::Mint` creates coins. -/
+theorem engine_creates_no_coins {E : Type} (cfg : Config E) (hb : ExtBankFrame cfg) (blk : Block) (fuel : Nat)
+    (ch ch' : Chain E) (sender : Addr) (m : Msg) (tr tr' : Trace) (r : AppResponse)
+    (hinv : Bank.NormInv ch.bank)
+    (h : execute cfg blk fuel ch sender m tr = (.ok (r, ch'), tr')) :
+    Bank.NormInv ch'.bank ∧ ∀ d, Bank.supply ch'.bank d ≤ Bank.supply ch.bank d :=
+  EngineInv.engine_creates_no_coins cfg hb blk fuel ch ch' sender m tr tr' r hinv h
+
+/-- …and a tree without burn messages at the top level that merely transfers conserves it exactly:
+a plain send between two accounts through the engine leaves every supply unchanged. -/
+theorem engine_send_conserves {E : Type} (cfg : Config E) (blk : Block) (fuel : Nat) (ch ch' : Chain E)
+    (sender : Addr) (to : String) (amt : Coins) (tr tr' : Trace) (r : AppResponse)
+    (hinv : Bank.NormInv ch.bank)
+    (h : execute cfg blk fuel ch sender (.bankSend to amt) tr = (.ok (r, ch'), tr')) :
+    ∀ d, Bank.supply ch'.bank d = Bank.supply ch.bank d :=
+  EngineInv.engine_send_conserves cfg blk fuel ch ch' sender to amt tr tr' r hinv h
 
 end CwMt.C09
